@@ -766,6 +766,8 @@ impl Builtins {
                 }
                 let mut num = start;
                 loop {
+                    #[cfg(ucg_verif)]
+                    crate::verif::tick("runtime::range");
                     if num > end {
                         break;
                     }
